@@ -307,10 +307,51 @@ func cmdCheck(id, tier string) int {
 			inconclusive = append(inconclusive, msgs[0])
 		}
 	}
-	rp.close()
 	// vacuity: every Reach marker named in a harness source must be witnessed
 	missing := checkVacuity(hs, results)
+	mustReach := findMustReach(hs)
+	complete := len(inconclusive) == 0
 	for _, mname := range missing {
+		parts := strings.SplitN(mname, ":", 2)
+		if fid, isMust := mustReach[parts[1]]; isMust {
+			// an existential obligation: some input must reach the marker.  Exhaustive
+			// exploration without a witness = the marker is unreachable within the bound.
+			if !complete {
+				inconclusive = append(inconclusive, "must-reach marker not witnessed, but the exploration is incomplete: "+mname)
+				continue
+			}
+			var h harnessRef
+			for _, x := range hs {
+				if x.fn == parts[0] {
+					h = x
+				}
+			}
+			nrep++
+			rr := &replayRec{Property: id, Harness: h.fn, PkgDir: h.dir, Obligation: parts[1], Kind: "unreachable",
+				Msg: "no input within the bounds reaches this marker (solver: every path that could is infeasible); native confirmation by random sampling", Finding: fid}
+			path := filepath.Join(verifDir, "replays", id, fmt.Sprintf("%s-%d.json", sanitize(parts[1]), nrep))
+			rr.Cmd = "/verif/bin/gosym replay " + path
+			os.MkdirAll(filepath.Dir(path), 0o755)
+			b, _ := json.MarshalIndent(rr, "", " ")
+			os.WriteFile(path, b, 0o644)
+			ok, out := rp.run(rr, path)
+			replayed++
+			switch {
+			case !ok:
+				inconclusive = append(inconclusive, fmt.Sprintf("must-reach marker %s: native sampling contradicts the solver (%s): %s", mname, path, lastLines(out, 4)))
+			case fid != "" && open[fid]:
+				if !knownSeen[fid] {
+					knownSeen[fid] = true
+					fmt.Printf("KNOWN-FINDING: property=%s %s %s (replay=%s)\n", id, fid, known[fid].What, path)
+				}
+			default:
+				fmt.Printf("VIOLATION property=%s replay=%s\n", id, path)
+				fmt.Printf("  obligation %s (must be reachable) is unreachable\n", parts[1])
+				violations++
+				rc = 1
+			}
+			continue
+		}
 		inconclusive = append(inconclusive, "vacuous: Reach marker never witnessed: "+mname)
 	}
 	writeEvidence(id, tier, seed, hs, results, ld, violations, knownSeen, replayed, inconclusive, time.Since(t0))
@@ -326,6 +367,28 @@ func cmdCheck(id, tier string) int {
 		fmt.Printf("OK property=%s tier=%s harnesses=%d wall=%.1fs\n", id, tier, len(hs), time.Since(t0).Seconds())
 	}
 	return rc
+}
+
+var mustReachRe = regexp.MustCompile(`verif:must-reach\s+(\S+)(?:\s+finding=(\S+))?`)
+
+// findMustReach: marker -> finding id ("" if none) from `// verif:must-reach M finding=F` comments.
+func findMustReach(hs []harnessRef) map[string]string {
+	out := map[string]string{}
+	seen := map[string]bool{}
+	for _, h := range hs {
+		files, _ := filepath.Glob(filepath.Join(verifDir, "harness", h.dir, "*.go"))
+		for _, p := range files {
+			if seen[p] {
+				continue
+			}
+			seen[p] = true
+			src, _ := os.ReadFile(p)
+			for _, m := range mustReachRe.FindAllStringSubmatch(string(src), -1) {
+				out[m[1]] = m[2]
+			}
+		}
+	}
+	return out
 }
 
 func lastLines(s string, n int) string {
